@@ -349,6 +349,48 @@ pub fn run_mem_family(ctx: &Ctx, fam: &MemFamily) -> Stats {
                 }
                 true
             };
+            // periodic text: (short ASCII word + one planted unit) x 9..20 - heuristics that count
+            // consecutive bail-outs of a fast path only wake up on such text
+            {
+                let u16src = matches!(kind, SrcKind::U16 | SrcKind::Latin1U16);
+                let ncl = if u16src { memgen::PLANT16.len() } else if kind == SrcKind::Latin1 { memgen::PLANT_LATIN1.len() } else { memgen::PLANT8.len() };
+                for cls in 0..ncl {
+                    if cls % LANES != lane {
+                        continue;
+                    }
+                    for r in [1usize, 3, 7, 15] {
+                        for reps in [9usize, 12, 20] {
+                            k += 1;
+                            let (mut s8, mut s16) = (Vec::new(), Vec::new());
+                            for i in 0..reps {
+                                for j in 0..r {
+                                    let c = b'a' + ((i + j) % 26) as u8;
+                                    if u16src {
+                                        s16.push(c as u16);
+                                    } else {
+                                        s8.push(c);
+                                    }
+                                }
+                                if u16src {
+                                    s16.extend_from_slice(memgen::PLANT16[cls]);
+                                } else if kind == SrcKind::Latin1 {
+                                    s8.push(memgen::PLANT_LATIN1[cls]);
+                                } else {
+                                    s8.extend_from_slice(memgen::PLANT8[cls]);
+                                }
+                            }
+                            if u16src {
+                                s16.extend_from_slice(&[0x79, 0x7A]);
+                            } else {
+                                s8.extend_from_slice(b"yz");
+                            }
+                            if !run(s8, s16, "periodic-word-plus-special-unit", st, k) {
+                                return;
+                            }
+                        }
+                    }
+                }
+            }
             match kind {
                 SrcKind::U16 => {
                     for (ai, &a) in memgen::UNIT_EDGES16.iter().enumerate() {
